@@ -254,6 +254,23 @@ Definition absq_items (s : gstate) : list item :=
 
 Definition absq (s : gstate) : list Z := map snd (absq_items s).
 
+(* the same queue computed from the concrete state only (no ghost): follow the next
+   pointers from head; the first node is the dummy *)
+Fixpoint walk (h : list node) (fuel : nat) (p : ptr) : list node_id :=
+  match fuel with
+  | O => []
+  | S f => match p with
+           | None => []
+           | Some n => match nth_error h n with
+                       | None => []
+                       | Some nd => n :: walk h f (n_next nd)
+                       end
+           end
+  end.
+
+Definition queue_of_heap (s : gstate) : list Z :=
+  map (val_of s) (List.tl (walk (heap s) (List.length (heap s)) (head s))).
+
 (* contribution of a thread to the lag of the length counter *)
 Definition lag (th : thread) : Z :=
   match t_pc th with
